@@ -562,7 +562,7 @@ def _grouped(configs, chunk):
 
 
 def tasks(tier, seed):
-    return _grouped(_configs(tier, seed), 14 if tier == "quick" else 24)
+    return _grouped(_configs(tier, seed), 20 if tier == "quick" else 40)
 
 
 # ---------------------------------------------------------------------------------------
